@@ -18,11 +18,14 @@ THEOREMS = [_T + n for n in _THEOREM_NAMES]
 LEVEL_TEXT = ("Lean theorems over an executable model of all 26 AOEF adapter modules (data classes, document classes, "
               "save = first-wins tables over the post-order traversal, single-pass loader with lenient / strict "
               "references): load (save c) = c for every collection constructor under the explicit coherence "
-              "hypothesis WF, with and without an audio directory, and n-cycle fixpoint. The model is tied to the "
-              "code on every run by regenerated FieldsAgree obligations (every data class and every AOEF object "
-              "class, decide +kernel on the model structures' own field lists), the adapter-table obligation, and "
-              "differential correspondence of documents, loads and n-cycle round trips on pool-generated object "
-              "graphs (in-process and through a fresh loader process).")
+              "hypothesis WF, with and without an audio directory (relative or absolute; with a directory the n-cycle "
+              "fixpoint holds exactly when every recording lies inside it), and n-cycle fixpoint; the file-level gates "
+              "of io.save / io.load. The model is tied to the code on every run by regenerated FieldsAgree obligations "
+              "(every data class and every AOEF object class, found by its position in the document; decide +kernel on "
+              "the model structures' own field lists), the adapter-table obligation, and differential correspondence "
+              "of documents, loads and n-cycle round trips on pool-generated object graphs (in-process and through a "
+              "fresh loader process), each round trip also judged after every cycle by a walk over the declared "
+              "fields (model_fields) of the real classes.")
 LEVEL_NOTE = ("Trusted: Lean kernel; the harness' conversion between pydantic objects / JSON documents and the model's "
               "JSON layout; pydantic's parsing of atoms (floats, datetimes, e-mail, uuid) and JSON text encoding, which "
               "the model treats as opaque atoms. Unmodelled: Recording's extra='allow' undeclared fields, non-simple "
@@ -32,18 +35,23 @@ TECHNIQUE = ("Lean 4 proof (round trip and fixpoint theorems over a hand-written
              "regenerated FieldsAgree / adapter-table obligations (decide +kernel); differential correspondence of "
              "documents, loads and n-cycle round trips")
 RULE = ("distinct (operation, collection) inputs on which the real save/load ran without error; collections are "
-        "pool-generated object graphs of all eight types with shared sub-objects, optional fields present/absent and "
-        "falsy-but-meaningful values")
+        "pool-generated object graphs of all eight types with shared sub-objects and equal-content twins, optional "
+        "fields present/absent (randomly and one declared field at a time), falsy-but-meaningful and extreme atoms, "
+        "relative and absolute audio directories in several spellings")
 TRUSTED = ["pydantic-core parsing / dumping of atoms (float repr round trip, datetime, uuid, e-mail) and JSON text",
-           "harness/aoef.py: build (model JSON -> pydantic objects), dump (objects -> model JSON), doc_to_model"]
+           "harness/aoef.py: build (model JSON -> pydantic objects), dump (objects -> model JSON), doc_to_model "
+           "(dump's field lists are double-checked on every round trip by the declared-field walk of harness/c01_generic.py)"]
 ASSUMPTIONS = ["objects with one uuid are one object (sharing by reference) — the model's WF coherence hypothesis, "
                "evaluated by the Lean-side wfB on every generated input",
                "terms are simple-label terms; feature labels are distinct within each feature list; the collection's "
-               "own member list has distinct members"]
+               "own member list has distinct members (needed by the code only for Evaluation.clip_evaluations, which is "
+               "written from the de-duplicated adapter table; model and code agree on duplicated members: roundtrip_dup)"]
 NOT_COMPARED = ["order of the top-level definition lists of a document and the numbering of tag ids (the property does "
                 "not pin them; documents are compared after sorting by uuid and renumbering tags by (label, value))",
                 "absent vs empty optional lists in the document (representation, not content)",
-                "AOEFObject.created_on / version of the file wrapper", "error messages"]
+                "AOEFObject.created_on / version of the file wrapper", "error messages",
+                "the sign of a zero (-0.0 == 0.0; negative zeros are never generated)",
+                "a time-zone offset with a seconds part (pydantic drops the seconds; never generated)"]
 
 HAVE_DISPATCH_THEOREM = True     # set when Proofs/C01.lean provides C01_type_dispatch
 _DISPATCH_OBLIGATION = (
@@ -245,6 +253,56 @@ def _lean_list(xs):
     return "[" + ", ".join('"%s"' % x for x in xs) + "]"
 
 
+# document key -> name of the model structure of the objects listed there
+POSITION = {"users": "UserObject", "tags": "TagObject", "recordings": "RecordingObject", "clips": "ClipObject",
+            "sound_events": "SoundEventObject", "sequences": "SequenceObject",
+            "sound_event_annotations": "SoundEventAnnotationObject", "sequence_annotations": "SequenceAnnotationObject",
+            "clip_annotations": "ClipAnnotationsObject", "sound_event_predictions": "SoundEventPredictionObject",
+            "sequence_predictions": "SequencePredictionObject", "clip_predictions": "ClipPredictionsObject",
+            "clip_evaluations": "ClipEvaluationObject", "matches": "MatchObject", "tasks": "AnnotationTaskObject",
+            "notes": "NoteObject", "status_badges": "StatusBadgeObject"}
+DOC_MODEL = {"recording_set": "RecordingSetObject", "dataset": "DatasetObject", "annotation_set": "AnnotationSetObject",
+             "annotation_project": "AnnotationProjectObject", "evaluation_set": "EvaluationSetObject",
+             "prediction_set": "PredictionSetObject", "model_run": "ModelRunObject", "evaluation": "EvaluationObject"}
+
+
+def _models_in(ann):
+    """pydantic classes mentioned in a type annotation"""
+    import typing
+    from pydantic import BaseModel
+    out = []
+    stack = [ann]
+    while stack:
+        a = stack.pop()
+        if isinstance(a, type) and issubclass(a, BaseModel):
+            out.append(a)
+        else:
+            stack.extend(typing.get_args(a))
+    return out
+
+
+def _classes_by_position(A):
+    """(model structure name, class) for the schema of every position of an AOEF document"""
+    wrapper = next(c for c in vars(A).values() if isinstance(c, type) and hasattr(c, "model_fields")
+                   and {"version", "data"} <= set(c.model_fields))
+    out, done = [], set()
+
+    def nested(cls):
+        for f, info in cls.model_fields.items():
+            for c in _models_in(info.annotation):
+                if f in POSITION and c.__module__.startswith("soundevent.io.aoef"):
+                    out.append((POSITION[f], c))
+                    if id(c) not in done:
+                        done.add(id(c))
+                        nested(c)
+    for c in _models_in(wrapper.model_fields["data"].annotation):
+        disc = c.model_fields.get("collection_type")
+        if disc is not None and disc.default in DOC_MODEL:
+            out.append((DOC_MODEL[disc.default], c))
+            nested(c)
+    return out
+
+
 def _tables(ctx):
     from soundevent import data
     import soundevent.io.aoef as A
@@ -261,17 +319,30 @@ def _tables(ctx):
         fs = sorted(RENAME.get(name, {}).get(f, f) for f in cls.model_fields)
         ctx.obligation(f"fields_{name}", f'example : SE.Aoef.fieldsOf "{name}" = {_lean_list(fs)} := by decide +kernel',
                        {"class": name, "fields": fs})
-    # AOEF object classes, found by introspection of every module of the package
+    # AOEF object classes.  (a) by *position in the document*: every pydantic class reachable through the field
+    # annotations of the members of the `AOEFObject.data` union is the schema of the objects written at that key
+    # (`recordings[]`, `recordings[].notes[]`, `tasks[].status_badges[]` …) whatever the class is called;
+    # (b) by name, walking every module of the package (catches a class that is defined but no longer referenced).
     seen = {}
+    try:
+        for model_name, c in _classes_by_position(A):
+            if seen.get(model_name, c) is not c:
+                model_name = f"{model_name}@{c.__module__}.{c.__name__}"     # two schemas for one position
+            seen[model_name] = c
+        ctx.tally("object classes found by document position", len(seen))
+    except Exception as e:  # noqa: BLE001
+        ctx.note("object classes could not be found by document position (%r); falling back to class names" % (e,))
+    by_position = set(map(id, seen.values()))
     for m in pkgutil.iter_modules(A.__path__):
         mod = importlib.import_module("soundevent.io.aoef." + m.name)
         for n, c in inspect.getmembers(mod, inspect.isclass):
-            if issubclass(c, BaseModel) and c.__module__ == mod.__name__ and n.endswith("Object"):
-                seen[n] = c
+            if issubclass(c, BaseModel) and c.__module__ == mod.__name__ and n.endswith("Object") and id(c) not in by_position:
+                if n != "AOEFObject":
+                    seen.setdefault(n, c)
     for n, c in sorted(seen.items()):
         fs = sorted(c.model_fields)
-        ctx.obligation(f"fields_{n}", f'example : SE.Aoef.fieldsOf "{n}" = {_lean_list(fs)} := by decide +kernel',
-                       {"class": n, "fields": fs})
+        ctx.obligation(f"fields_{n}", f'example : SE.Aoef.fieldsOf "{n.split("@")[0]}" = {_lean_list(fs)} := by decide +kernel',
+                       {"class": f"{c.__module__}.{c.__name__}", "fields": fs})
     ctx.tally("object_classes", len(seen))
     # the adapter table: type names, most specific first, discriminators
     adapters = getattr(A, "ADAPTERS", None)
@@ -483,7 +554,8 @@ def _stage_wide(ctx, st):
             d = base if (base is not None and ctx.rng.random() < 0.5) else None
             mk = lambda cj: {"collection": cj, "save_dir": d, "load_dir": d, "n": ctx.rng.choice([1, 2, 3]),
                              "dir_as": ctx.rng.choice(["str", "path"]), "fresh": False}
-            wide.append(mk(c01_cases.WideGen(ctx.rng, rich=i == 0, base=base, size=0.8).collection(ty)))
+            w = c01_cases.WideGen(ctx.rng, rich=i == 0, base=base, size=0.8).collection(ty)
+            wide.append(mk(c01_cases.widen_strings(w, ctx.rng) if i % 3 else w))
             twin.append(mk(c01_cases.TwinGen(ctx.rng, rich=i == 0, base=base, size=0.8).collection(ty)))
     wide = st["wide"] = _tally_cases(ctx, _wf_filter(ctx, wide), "wide-atoms")
     twin = st["twin"] = _tally_cases(ctx, _wf_filter(ctx, twin), "twins")
